@@ -357,6 +357,47 @@ pub fn drain_slice(role: Role, input: &[u8]) -> Drain {
     Drain { frames, end, consumed_at_last_frame: last }
 }
 
+/// path 0': the sans-IO way of using the one-shot readers — the bytes become available piece by
+/// piece, the SAME typestate object is asked again after every "need more" with a longer slice
+/// (`buffered` selects `read_frame_from_buffer`). Must yield exactly what one call sequence over
+/// the complete input yields.
+pub fn drain_incremental(role: Role, input: &[u8], steps: &[usize], buffered: bool) -> Drain {
+    let mut frames = vec![];
+    let (mut pos, mut avail, mut si) = (0usize, 0usize, 0usize);
+    let end = with_role!(role, st, {
+        loop {
+            let window = &input[pos..avail];
+            let res = if buffered {
+                let mut br = BufferReader::new(window);
+                let r = st.read_frame_from_buffer(&mut br).map(|o| o.map(|f| (crate::c11::kind_id(f.kind()), f.payload().to_vec(), f.session_id().map(|x| x.into_u64()))));
+                (r, br.offset())
+            } else {
+                let mut sl = window;
+                let r = st.read_frame(&mut sl).map(|o| o.map(|f| (crate::c11::kind_id(f.kind()), f.payload().to_vec(), f.session_id().map(|x| x.into_u64()))));
+                (r, window.len() - sl.len())
+            };
+            match res {
+                (Ok(Some(f)), used) => {
+                    frames.push(f);
+                    pos += used;
+                    if frames.len() > input.len() + 2 {
+                        break "runaway".to_string();
+                    }
+                }
+                (Ok(None), _) => {
+                    if avail == input.len() {
+                        break "needmore".to_string();
+                    }
+                    avail = (avail + steps[si % steps.len()].max(1)).min(input.len());
+                    si += 1;
+                }
+                (Err(code), _) => break format!("h3:{code}"),
+            }
+        }
+    });
+    Drain { frames, end, consumed_at_last_frame: pos }
+}
+
 pub fn drain_buffer(role: Role, input: &[u8]) -> (Drain, usize) {
     let mut br = BufferReader::new(input);
     let mut frames = vec![];
@@ -452,6 +493,14 @@ pub fn check_typestate_paths(rep: &mut Report, role: Role, input: &[u8], r: &mut
         }
     }
     let at_boundary = at == input.len();
+    // incremental delivery to one typestate object (retry after every need-more)
+    for (k, steps) in [vec![1usize], vec![2, 1, 3], vec![r.usize(1, 7), r.usize(1, 40)]].into_iter().enumerate() {
+        let d = drain_incremental(role, input, &steps, k % 2 == 1);
+        rep.evaluations += 1;
+        if d.frames != a.frames || d.end != a.end {
+            bad.push(format!("incremental delivery (steps {steps:?}, buffered={}) to one typestate: {} frames, {} — one-shot: {} frames, {}", k % 2 == 1, d.frames.len(), d.end, a.frames.len(), a.end));
+        }
+    }
     for ch in chunkings(input.len(), r, budget.min(64)) {
         for pp in pend_patterns(r, false) {
             let c = drain_async(role, input, ch.clone(), pp.clone());
